@@ -413,19 +413,21 @@ def run_chain_case(ctx):
     # 40% of the runs are laid out for the iterative solver (prod(cshape) >= 1000 needs prod(d) >= 1000, bonds near the
     # exact ranks and a start state that already has them)
     big = bool(rng.random() < 0.45)
-    gm, terms, parts, H, kind = build_model(ctx, big)
-    basis = gm.basis
+    for _attempt in range(8):
+        gm, terms, parts, H, kind = build_model(ctx, big)
+        basis = gm.basis
+        # ---- sector -----------------------------------------------------------------------------------
+        for _ in range(6):
+            qntot = states.pick_sector(rng, gm)
+            mask = dense.sector_mask(basis, qntot)
+            ds = int(mask.sum())
+            if ds >= 2:
+                break
+        if ds <= 2100:          # dense diagonalisation of the sector stays within a few seconds
+            break
     n = len(basis)
     h_is_complex = bool(H.nnz and np.any(H.data.imag != 0))
     ctx.cls("model:" + kind, "qn:" + gm.desc["qn_mode"], "complex-H" if h_is_complex else "real-H")
-
-    # ---- sector -------------------------------------------------------------------------------------
-    for _ in range(6):
-        qntot = states.pick_sector(rng, gm)
-        mask = dense.sector_mask(basis, qntot)
-        ds = int(mask.sum())
-        if ds >= 2:
-            break
     idx = np.where(mask)[0]
     Hs = H[idx][:, idx].toarray()
     if not h_is_complex:
@@ -762,10 +764,12 @@ def run_chain_case(ctx):
             want = float(src["e"][k])
             err = abs(aval - want) / max(1.0, abs(want))
             ctx.metric_max("returned-state-vs-its-micro-iteration", err)
+            # (signature = mechanism: which solver delivered the vector, one- or two-layer operator)
             ctx.check(err <= 1e-7 + 1e-10 * specr,
-                      f"returned-state|energy-differs-from-its-micro-iteration|{method}|{src['solver']}"
-                      + ("|omega" if omega is not None else "") + ("|nroots>1" if nroots > 1 else ""),
-                      root=k, state_value=aval, reported=want)
+                      f"returned-state|energy-differs-from-its-micro-iteration|{src['solver']}"
+                      + ("|omega" if omega is not None else ""),
+                      root=k, state_value=aval, reported=want, method=method, nroots=nroots,
+                      state_dtype=str(psi.dtype), complex_H=h_is_complex)
     # returned states copied losslessly from a complete micro-iteration that delivered eigenpairs are eigenstates of A
     if lossless and src is not None and src["local_dim"] == ds and settled(src) and len(rlist) <= len(src["e"]):
         for k, st in enumerate(rlist):
